@@ -375,3 +375,27 @@ Proof.
   intros Hne Hhi Hm. eapply is_min_unique; [| exact Hm].
   exact (tp_min_ok _ _ _ _ (rdd_stats_two_pass lo hi parts) Hne Hhi).
 Qed.
+
+(* the representation pins the counter: over exact arithmetic the result does not depend on the partitioning or on the
+   merge order at all (for non-empty data; for empty data the mean field is not constrained by Rep) *)
+Lemma Rep_unique lo hi s s' xs : xs <> [] -> Rep lo hi s xs -> Rep lo hi s' xs -> s = s'.
+Proof.
+  intros Hne H H'. pose proof (Rep_mean _ _ _ _ H Hne) as Hm. pose proof (Rep_mean _ _ _ _ H' Hne) as Hm'.
+  destruct H as [Hn _ Hm2 Hmx Hmn]. destruct H' as [Hn' _ Hm2' Hmx' Hmn'].
+  destruct s as [n mu m2 mx mn]. destruct s' as [n' mu' m2' mx' mn']. cbn [sc_n sc_mu sc_m2 sc_max sc_min] in *.
+  subst. reflexivity.
+Qed.
+
+Lemma merge_order_irrelevant lo hi (t t' : mtree R) :
+  Permutation (tdata t) (tdata t') -> tdata t <> [] -> tree_stats lo hi t = tree_stats lo hi t'.
+Proof.
+  intros P Hne. apply (Rep_unique lo hi _ _ (tdata t) Hne); [apply tree_rep|].
+  eapply Rep_perm; [apply Permutation_sym, P | apply tree_rep].
+Qed.
+
+Lemma rdd_stats_partitioning_irrelevant lo hi parts parts' :
+  Permutation (concat parts) (concat parts') -> concat parts <> [] -> rdd_stats lo hi parts = rdd_stats lo hi parts'.
+Proof.
+  intros P Hne. apply (Rep_unique lo hi _ _ (concat parts) Hne); [apply rdd_stats_rep|].
+  eapply Rep_perm; [apply Permutation_sym, P | apply rdd_stats_rep].
+Qed.
